@@ -393,6 +393,43 @@ def units(tier, seed):
     return us
 
 
+def replay_pointwise_inner(ob):
+    import os
+    import sys
+    root = os.environ.get('PYVC_REPO', '/repo')
+    if root not in sys.path:
+        sys.path.insert(0, root)
+    import numpy as np
+    import odl
+    cfg = ob.get('config') or {}
+    field, wtd, k = cfg.get('field', 'real'), cfg.get('op_weighted', True), int(cfg.get('components', 2))
+    rng = np.random.default_rng(6)
+    base = odl.uniform_discr(0, 2, 4, dtype='complex128' if field == 'complex' else 'float64')
+    for space_w in (np.arange(2, 2 + k) * 1.0, 0.5, None):
+        vf = odl.ProductSpace(base, k) if space_w is None else odl.ProductSpace(base, k, weighting=space_w)
+
+        def rnd(sp):
+            return sp.element(rng.standard_normal(sp.shape) + (1j * rng.standard_normal(sp.shape) if field == 'complex' else 0))
+        G = rnd(vf)
+        for op_w in ((np.arange(1, k + 1) * 1.5, 3.0) if wtd else (1.0, np.ones(k))):
+            A = odl.PointwiseInner(vf, G, weighting=op_w)
+            F, h = rnd(vf), rnd(base)
+            lhs, rhs = A(F).inner(h), F.inner(A.adjoint(h))
+            if abs(lhs - rhs) > 1e-9 * max(1.0, abs(lhs)):
+                return {'reproduced': True, 'detail': 'PointwiseInner(%r, G, weighting=%r): <A F, h> = %r but <F, A.adjoint h> = %r' % (vf, op_w, lhs, rhs),
+                        'input': {'space_weighting': repr(space_w), 'operator_weighting': repr(op_w)}}
+            At = A.adjoint
+            l2, r2 = At(h).inner(F), h.inner(At.adjoint(F))
+            if abs(l2 - r2) > 1e-9 * max(1.0, abs(l2)):
+                return {'reproduced': True, 'detail': 'PointwiseInnerAdjoint on %r, weighting=%r: <A* h, F> = %r but <h, A** F> = %r' % (vf, op_w, l2, r2)}
+    return {'reproduced': False, 'detail': 'adjoint identity holds natively for array / constant / default product-space weights'}
+
+
 def replay(ob):
+    if ob.get('unit', '').startswith('pointwise-inner/'):
+        try:
+            return replay_pointwise_inner(ob)
+        except Exception as e:
+            return {'reproduced': False, 'detail': 'replay harness error: %r' % (e,)}
     from contracts import replay_adj
     return replay_adj.replay(ob)
